@@ -25,7 +25,16 @@ func encodeSegmentBytes(bs []byte) string {
 }
 
 func decodeSegmentBytes(s string) ([]byte, error) {
-	return base64.RawURLEncoding.DecodeString(s)
+	bs, err := base64.RawURLEncoding.DecodeString(s)
+	if err != nil {
+		return nil, err
+	}
+	if encodeSegmentBytes(bs) != s {
+		// The decoder skips line breaks and ignores the unused bits of the
+		// last character; a segment must be in its one canonical form.
+		return nil, base64.CorruptInputError(len(s))
+	}
+	return bs, nil
 }
 
 func encodeSegment(v interface{}) (string, error) {
